@@ -155,7 +155,7 @@ func (e *sgEngine) Generate(seed uint64, tier string, run int) (json.RawMessage,
 	var c SGCase
 	n := rk.Range(4, 40)
 	sizes := []int{0, 1, 2, 3, 5, 8, 16, 33, 64}
-	pattern := rk.Intn(4) // 3: typing (every Init extends the previous paragraph by a few runes)
+	pattern := rk.Intn(5) // 3: typing (every Init extends the previous paragraph by a few runes); 4: one huge paragraph, then short ones
 	lastLen := 0
 	lastText := ""
 	// swarm knob: 20% of the runs draw their texts from truncation aliases (see genCollisionText)
@@ -175,6 +175,12 @@ func (e *sgEngine) Generate(seed uint64, tier string, run int) (json.RawMessage,
 					l = lastLen / 2
 				} else {
 					l = 64
+				}
+			case 4: // buffers grown far beyond what the following paragraphs need
+				if lastLen == 0 {
+					l = kernel.Pick(rg, []int{1025, 1500, 2049, 5400})
+				} else {
+					l = kernel.Pick(rg, []int{1, 3, 7, 12, 40})
 				}
 			}
 			lastLen = l
@@ -219,6 +225,10 @@ func (e *sgEngine) Generate(seed uint64, tier string, run int) (json.RawMessage,
 			case rg.Chance(0.08):
 				// segment a segment: the slice an iterator returned goes straight back into Init
 				op = ReuseOp{K: "uinit", E: 2, Iter: rg.Intn(8), S: op.S}
+			case rg.Chance(0.1):
+				// a paragraph submitted earlier is submitted again (the same slice, as when a document
+				// is kept in one buffer)
+				op = ReuseOp{K: "uinit", E: 4, Iter: rg.Intn(6), S: op.S}
 			}
 			if rg.Chance(0.6) {
 				op.S = rg.Range(1, 11) // a decoy text is segmented by another object right before
